@@ -11,7 +11,7 @@ from vlib.coqlit import cstr, cN, cz, cnat, cbool, clist, copt, cpair, cbytes
 ID = "C15"
 COQ_PROPS = "Props/C15.v"
 THEOREMS = ["C15_partition", "C15_never", "C15_never_default", "C15_injective", "C15_injective_refuted_without_hyp",
-            "C15_values", "C15_values_default_numeric", "C15_deterministic"]
+            "C15_values", "C15_values_conversion", "C15_values_default_numeric", "C15_deterministic"]
 ALLOWED_AXIOMS = []
 RULE = ("in-memory pydicom datasets over CS LO SH DS IS US SS UL SL FL FD UI PN DA TM AT OB OW UN SQ(depth<=3) x VM {0,1,n}, "
         "empty/None/blank values, private blocks at reserved slots 0x10..0xff with and without registered translators "
